@@ -75,7 +75,11 @@ def strip_verbose(pat):
     return "".join(out)
 
 
-KNOWN_ARITY = {}
+def body_digest(fn):
+    import hashlib
+    src = ast.dump(ast.Module(body=fn.body, type_ignores=[]), annotate_fields=False)
+    src = src.replace("'%s'" % fn.name, "'<self>'")
+    return hashlib.md5((str(len(fn.args.args)) + src).encode()).hexdigest()[:12]
 
 
 class ObjConst(object):
@@ -516,10 +520,19 @@ class Model(object):
             known = [n for n in known if n.startswith("_") and not n.startswith("__")]
             missing = [n for n in known if n not in m.functions and n not in m.imports]
             extra = [n for n in m.functions if n.startswith("_") and not n.startswith("__") and n not in known_base]
-            if len(missing) == 1 and len(extra) == 1 \
-                    and len(m.functions[extra[0]].args.args) == KNOWN_ARITY.get("%s.%s" % (m.name, missing[0]), len(m.functions[extra[0]].args.args)):
-                m.functions[missing[0]] = m.functions[extra[0]]
-                out[extra[0]] = missing[0]
+            pairs = []
+            if len(missing) == 1 and len(extra) == 1:
+                pairs = [(missing[0], extra[0])]
+            elif missing and extra:
+                # several at once: paired by the digest of the (unchanged) body
+                from .known_bodies import BODIES
+                for old_ in missing:
+                    same = [n for n in extra if body_digest(m.functions[n]) == BODIES.get("%s.%s" % (m.name, old_))]
+                    if len(same) == 1:
+                        pairs.append((old_, same[0]))
+            for old_, new_ in pairs:
+                m.functions[old_] = m.functions[new_]
+                out[new_] = old_
         return out
 
     def _compute_attr_renames(self):
@@ -560,15 +573,22 @@ class Model(object):
             missing = [n for n in known if n not in c.methods and c.lookup(n) is None]
             extra = [n for n in c.methods if n.startswith("_") and not n.startswith("__") and not n.startswith("_validate")
                      and n not in known and n not in known_names]
+            mpairs = []
             if len(missing) == 1 and len(extra) == 1:
-                old_, new_ = missing[0], extra[0]
-                if True:
-                    votes.setdefault(new_, set()).add(old_)
-                    c.methods[old_] = c.methods[new_]
-                    if new_ in c.properties:
-                        c.properties.add(old_)
-                    if new_ in c.staticmethods:
-                        c.staticmethods.add(old_)
+                mpairs = [(missing[0], extra[0])]
+            elif missing and extra:
+                from .known_bodies import BODIES
+                for old_ in missing:
+                    same = [n for n in extra if body_digest(c.methods[n]) == BODIES.get("%s.%s" % (c.qname, old_))]
+                    if len(same) == 1:
+                        mpairs.append((old_, same[0]))
+            for old_, new_ in mpairs:
+                votes.setdefault(new_, set()).add(old_)
+                c.methods[old_] = c.methods[new_]
+                if new_ in c.properties:
+                    c.properties.add(old_)
+                if new_ in c.staticmethods:
+                    c.staticmethods.add(old_)
         return dict((new, list(olds)[0]) for new, olds in votes.items() if len(olds) == 1)
 
     # one-argument methods the rules are anchored on, which a refactoring may turn into a module-level function that is handed
